@@ -86,6 +86,9 @@ class Register:
                         f"Cannot slice parameter {alias_from.name} of non-register kind {alias_from.kind}."
                     )
             else:
+                for bound in (alias_slice.start, alias_slice.stop, alias_slice.step):
+                    if bound is not None and not isinstance(bound, int):
+                        raise JaqalError(f"Slice bound {bound} is not an integer.")
                 if alias_slice.start is not None and alias_slice.start < 0:
                     raise JaqalError("Index out of range.")
                 if alias_slice.step is not None and alias_slice.step < 1:
@@ -304,6 +307,10 @@ class NamedQubit:
                     f"Cannot slice parameter {alias_from.name} of non-register kind {alias_from.kind}."
                 )
         else:
+            if isinstance(alias_index, float) and alias_index == int(alias_index):
+                alias_index = self._alias_index = int(alias_index)
+            if not isinstance(alias_index, int):
+                raise JaqalError(f"Qubit index {alias_index} is not an integer.")
             if alias_index < 0:
                 raise JaqalError("Index out of range.")
             try:
